@@ -251,6 +251,9 @@ impl Peer {
         }
         // TODO : validate block fetch URL
         let sent_challenge = self.challenge_for_peer.unwrap();
+        // a challenge is answered once: whatever comes of this response, the challenge is not outstanding
+        // any more (the same bytes delivered again find nothing to answer)
+        self.challenge_for_peer = None;
         let result = verify(&sent_challenge, &response.signature, &response.public_key);
         if !result {
             warn!(
@@ -354,12 +357,17 @@ impl Peer {
                 wallet_version: wallet.wallet_version,
                 core_version: wallet.core_version,
             };
-            io_handler
+            if let Err(error) = io_handler
                 .send_message(
                     self.index,
                     Message::HandshakeResponse(response).serialize().as_slice(),
                 )
-                .await?;
+                .await
+            {
+                // the other side never got this node's answer: the handshake is not complete
+                self.mark_as_disconnected(current_time);
+                return Err(error);
+            }
             debug!("second handshake response sent for peer: {:?}", self.index);
         } else {
             info!(
@@ -367,8 +375,6 @@ impl Peer {
                 self.get_public_key().unwrap().to_base58()
             );
         }
-        self.challenge_for_peer = None;
-
         io_handler.send_interface_event(InterfaceEvent::PeerHandshakeComplete(self.index));
 
         Ok(())
